@@ -23,6 +23,7 @@ fn guarded<F: FnOnce() -> (bool, String) + panic::UnwindSafe>(f: F) -> (bool, bo
     }
 }
 
+mod ctapmap;
 mod u2f;
 mod hid;
 mod status;
@@ -55,6 +56,7 @@ fn main() {
         "rpid-web" => guarded(move || rpid::web(&arg)),
         "rpid-android" => guarded(move || rpid::android(&arg)),
         "origin-text" => guarded(move || rpid::origin_text(&arg)),
+        "ctap-map" => guarded(move || ctapmap::run(&arg)),
         "hid-packets" => guarded(move || hid::packets_no_panic(&arg)),
         "hid-roundtrip" => guarded(move || hid::roundtrip(&arg)),
         _ => (false, false, format!("unknown entry {entry}")),
